@@ -157,6 +157,10 @@ func execEvent(op string, args []string) string {
 		return withLen(pduTuple(p, true), p)
 	case "build":
 		return execBuild(args)
+	case "buildrt":
+		// Build, then what Build returned read back as UNTRUSTED input (C03): "ok" when Build refuses the proto-event or the
+		// event it returns is accepted unredacted with the same ID; "bad:<why>" otherwise.  Arguments as for `build`.
+		return execBuildRoundtrip(args)
 	case "headered":
 		in := unhx(args[1])
 		p, err := gmsl.NewEventFromHeaderedJSON(in, args[0] == "1")
@@ -359,6 +363,26 @@ func (r *Rng) buildEventTyped(o *Out, ver string, sizeTarget int, typ string) *b
 	if r.Chance(25) {
 		pe.Unsigned = spec.RawJSON(`{"age":` + fmt.Sprint(r.Intn(100000)) + `}`)
 	}
+	if sizeTarget == 0 && r.Chance(6) {
+		// the builder takes content / unsigned over as raw JSON: a member name that occurs twice in them (spelled the same
+		// or with an escape; at the top level or nested).  NewEventFromUntrustedJSON refuses such an event, so Build must not
+		// produce one (C03: what Build returns re-parses as untrusted input)
+		dup := Pick(r, []string{`{"a":1,"a":2}`, `{"a":1,"\u0061":2}`, `{"body":"x","n":{"b":1,"b":2}}`, `{"l":[{"k":1,"k":1}]}`, `{"msgtype":"m.text","msgtype":"m.text"}`,
+			`{"membership":"join","membership":"leave"}`, `{"x":{"y":{"z":null,"z":null}}}`, `{"":1,"":1}`})
+		switch r.Intn(3) {
+		case 0:
+			pe.Content = spec.RawJSON(dup)
+		case 1:
+			pe.Unsigned = spec.RawJSON(dup)
+		default:
+			pe.Content = spec.RawJSON(dup)
+			pe.Unsigned = spec.RawJSON(Pick(r, []string{`{"age":1,"age":1}`, `{"age":1,"t":{"q":1,"q":2}}`}))
+		}
+		o.Count("build.duplicate-member-in-raw-json")
+		buildRoundtripToo = true
+	} else if r.Chance(10) {
+		buildRoundtripToo = true
+	}
 	now := time.UnixMilli(int64(1600000000000 + r.Intn(1<<30)))
 	return runBuild(o, ver, pe, now, sg, int64(r.Intn(1<<30)))
 }
@@ -409,8 +433,19 @@ func runBuild(o *Out, ver string, pe gmsl.ProtoEvent, now time.Time, sg signer, 
 		showIDs(pe.PrevEvents.([]string)), showIDs(pe.AuthEvents.([]string)), hx([]byte(pe.Redacts)), fmt.Sprint(pe.Depth),
 		opt(pe.Content), opt(pe.Unsigned), opt(pe.Signature))
 	o.Count("build.op." + outcomeClass(im))
+	if buildRoundtripToo {
+		buildRoundtripToo = false
+		rt := o.Do("buildrt", ver, fmt.Sprint(now.UnixMilli()), hx([]byte(sg.name)), hx([]byte(sg.kid)), hx(seed[:]), fmt.Sprint(randSeed),
+			hx([]byte(rand16)), hx([]byte(sig)), hx([]byte(pe.Type)), hx([]byte(pe.SenderID)), hx([]byte(pe.RoomID)), skArg,
+			showIDs(pe.PrevEvents.([]string)), showIDs(pe.AuthEvents.([]string)), hx([]byte(pe.Redacts)), fmt.Sprint(pe.Depth),
+			opt(pe.Content), opt(pe.Unsigned), opt(pe.Signature))
+		o.Count("buildrt." + outcomeClass(rt))
+	}
 	return res
 }
+
+// set by the generator for proto-events whose Build-then-reparse is worth an op of its own (`event.buildrt`)
+var buildRoundtripToo = false
 
 func parseIDs(s string) []string {
 	out := []string{}
@@ -424,13 +459,32 @@ func parseIDs(s string) []string {
 	return out
 }
 
-// execBuild: event.build <ver> <now ms> <origin> <kid> <key seed> <rand seed> <rand16> <sig> <type> <sender> <room> <sk> <prev> <auth>
-// <redacts> <depth> <content> <unsigned> <signatures>   (rand16 and sig are for the model only)
-func execBuild(args []string) string {
+func execBuildRoundtrip(args []string) string {
 	v, err := gmsl.GetRoomVersion(gmsl.RoomVersion(args[0]))
 	if err != nil {
 		return "err:version"
 	}
+	p, err := buildFromArgs(v, args)
+	if err != nil || p == nil {
+		return "ok"
+	}
+	q, err := v.NewEventFromUntrustedJSON(p.JSON())
+	if err != nil {
+		return "bad:refused-as-untrusted:" + outcomeClass(classifyErr(err, p.JSON()))
+	}
+	if q.Redacted() {
+		return "bad:redacted"
+	}
+	if q.EventID() != p.EventID() {
+		return "bad:other-id"
+	}
+	return "ok"
+}
+
+// execBuild: event.build <ver> <now ms> <origin> <kid> <key seed> <rand seed> <rand16> <sig> <type> <sender> <room> <sk> <prev> <auth>
+// <redacts> <depth> <content> <unsigned> <signatures>   (rand16 and sig are for the model only)
+// buildFromArgs runs EventBuilder.Build on the proto-event the arguments of `event.build` describe.
+func buildFromArgs(v gmsl.IRoomVersion, args []string) (gmsl.PDU, error) {
 	var nowms, rseed, depth int64
 	fmt.Sscan(args[1], &nowms)
 	fmt.Sscan(args[5], &rseed)
@@ -449,7 +503,15 @@ func execBuild(args []string) string {
 	}
 	sk := ed25519.NewKeyFromSeed(unhx(args[4]))
 	rand.Seed(rseed)
-	p, err := v.NewEventBuilderFromProtoEvent(&pe).Build(time.UnixMilli(nowms), spec.ServerName(unhx(args[2])), gmsl.KeyID(unhx(args[3])), sk)
+	return v.NewEventBuilderFromProtoEvent(&pe).Build(time.UnixMilli(nowms), spec.ServerName(unhx(args[2])), gmsl.KeyID(unhx(args[3])), sk)
+}
+
+func execBuild(args []string) string {
+	v, err := gmsl.GetRoomVersion(gmsl.RoomVersion(args[0]))
+	if err != nil {
+		return "err:version"
+	}
+	p, err := buildFromArgs(v, args)
 	if err != nil {
 		return classifyErr(err, []byte("{}"))
 	}
